@@ -6,6 +6,8 @@
        type|text|file|line|function|category|time|steady|tid|formatted|attrs(khex=vhex,...)|seq
      output: the observation of the model's copy (copy_msg_with src_copy_cfg, ambient = garbage) in the same format,
      null pointers rendered as the empty string "h" (obs identifies null and "").
+   mode "wthread": any line -> "app=<own|caller> noapp=<own|caller>": the thread the model predicts for the sink steps when
+     moveToOwnThread() was called with / without an existing application object (exec_thread src_worker_move).
    mode "tsrc": any line -> "process=<message|clock> boot=<message|clock>": the clock the translated TimeToken reads for
      %{time process} / %{time boot} (message = lmsg.steadyTime(), the case of theorem C03_rendered_time_same_as_synchronous). *)
 open Async_model
@@ -36,6 +38,8 @@ let () =
   try while true do
     let line = input_line stdin in
     if mode = "complete" then print_endline (if src_copy_complete then "1" else "0")
+    else if mode = "wthread" then
+      Printf.printf "app=%s noapp=%s\n" (if src_sink_on_own_thread true then "own" else "caller") (if src_sink_on_own_thread false then "own" else "caller")
     else if mode = "tsrc" then begin
       let (p, b) = src_time_sources in
       Printf.printf "process=%s boot=%s\n" (if p then "message" else "clock") (if b then "message" else "clock")
